@@ -24,7 +24,7 @@ from impl_prog import Duck
 from jaxtyping import Float, PyTree, jaxtyped
 
 LEVEL = "proof"
-THEOREMS = ["C12_rest_invariant", "C12_check_flags", "C12_pure_verdict", "C12_generated_good", "C12_facts_matter", "C12_no_other_state", "C12_source_flags",]
+THEOREMS = ["C12_source_flag_cell", "C12_rest_invariant", "C12_check_flags", "C12_pure_verdict", "C12_generated_good", "C12_facts_matter", "C12_no_other_state", "C12_source_flags",]
 RULE = (
     "fault runs = catalogue operation (array check, PyTree check with/without structure name, nested "
     "PyTree, decorated call of 3 flavours, context block) x call-out point (argument formatting in a "
@@ -36,7 +36,7 @@ RULE = (
     "followed by the probes; non-trivial = the fault fired inside jaxtyping (an exception crossed a "
     "jaxtyping frame); distinct by (operation, point, class) / history text"
 )
-TRUSTED = [
+TRUSTED = ["harness/translate_storage.py (recognisers of the statements of the label / flag functions of _storage.py) and the interpreter Model/CellDsl.lean", 
     "Lean 4 kernel",
     "harness/extract.py: recognition of the try/finally around the flatten-mode flag and the leaf label",
     "the probe set observes every piece of per-thread state (also peeked at through jaxtyping._storage)",
